@@ -188,6 +188,9 @@ func cmdRun(args []string) int {
 			SolverS: ex.sstats.Time.Seconds(), WallS: time.Since(t0).Seconds(), Steps: ex.steps, Reach: ex.reach,
 			Violations: len(ex.violations), Unknowns: ex.unknowns, Unsupported: ex.unsupported, EngineErrs: ex.engineErrs, Samples: ex.samples, Opts: e.Opts}
 		results = append(results, r)
+		if *verbose {
+			fmt.Fprintln(os.Stderr, "slowest path:", ex.slowestDesc)
+		}
 		if len(ex.forkSites) > 0 {
 			type kv struct {
 				k string
